@@ -160,6 +160,25 @@ pub fn fake_repr(i: usize, site: u8, v: u64) -> String {
     }
 }
 
+/// address of the poll function of async fn number `i`
+fn poll_addr_i(i: usize) -> usize {
+    let r0 = 0u64;
+    let s = Svc { k: 40 };
+    match i {
+        0 => poll_addr(&a_unit(0)),
+        1 => poll_addr(&a_u32(0)),
+        2 => poll_addr(&a_u32_sibling(0)),
+        3 => poll_addr(&a_u64_ref(&r0)),
+        4 => poll_addr(&a_bool(false)),
+        5 => poll_addr(&a_string("")),
+        6 => poll_addr(&a_string_sibling(0)),
+        7 => poll_addr(&a_vec(0)),
+        8 => poll_addr(&a_tuple(0)),
+        9 => poll_addr(&a_big(0)),
+        _ => poll_addr(&s.m_u32(0)),
+    }
+}
+
 fn await_fn(i: usize, arg: u64) -> (String, u32) {
     match i {
         0 => {
@@ -262,6 +281,9 @@ pub enum AOp {
     EndLifetime,
     /// the injector goes out of scope because a panic unwinds through the scope that owns it
     EndLifetimeUnwind,
+    /// Fake{i, v}, and function i awaited once at the earliest possible moment: when the library
+    /// flushes the poll function's entry it has just patched (what a task on another thread can do)
+    FakeAwaitedDuringInstall { i: u8, v: u32 },
 }
 
 #[derive(Serialize, Deserialize, Clone, Debug, Hash, PartialEq, Eq)]
@@ -327,6 +349,42 @@ pub fn execute(c: &AsyncCase) -> AsyncObs {
                     o.install_panics.push(format!("op {k}: {}", crate::worker::last_panic()));
                 }
                 o.sites.push((k, site));
+            }
+            AOp::FakeAwaitedDuringInstall { i, v } => {
+                let i = *i as usize % N_FNS;
+                if inj.is_none() {
+                    inj = Some(ip::sut(InjectorPP::new));
+                }
+                let site = nfakes[i] % 2;
+                nfakes[i] += 1;
+                VAL[i].store(*v as u64, SeqCst);
+                crate::worker::phase("install");
+                let r0 = ORIG_RUNS[i].load(SeqCst);
+                let e0 = EVALS[i].load(SeqCst);
+                let early: std::rc::Rc<std::cell::RefCell<Option<Result<(String, u32), String>>>> = Default::default();
+                let e2 = early.clone();
+                ip::set_flush_hook(poll_addr_i(i), Box::new(move || {
+                    crate::worker::phase("await-during-install");
+                    *e2.borrow_mut() = Some(std::panic::catch_unwind(|| await_fn(i, 5)).map_err(|_| crate::worker::last_panic()));
+                    crate::worker::phase("install");
+                }));
+                let r = std::panic::catch_unwind(std::panic::AssertUnwindSafe(|| ip::sut(|| install(inj.as_mut().unwrap(), i, site))));
+                ip::clear_flush_hook();
+                if r.is_err() {
+                    o.install_panics.push(format!("op {k}: {}", crate::worker::last_panic()));
+                }
+                o.sites.push((k, site));
+                // (if the library flushed nothing there, the await happens right after instead)
+                let res = early.borrow_mut().take().unwrap_or_else(|| std::panic::catch_unwind(|| await_fn(i, 5)).map_err(|_| crate::worker::last_panic()));
+                let mut a = AwaitObs { op: k, i, arg: 5, thread: 0, orig_runs_delta: ORIG_RUNS[i].load(SeqCst) - r0, evals_delta: EVALS[i].load(SeqCst) - e0, ..Default::default() };
+                match res {
+                    Ok((v, p)) => {
+                        a.value = v;
+                        a.polls = p;
+                    }
+                    Err(m) => a.panicked = Some(m),
+                }
+                o.awaits.push(a);
             }
             AOp::Await { i, arg, thread } => {
                 let i = *i as usize % N_FNS;
@@ -417,6 +475,7 @@ pub fn execute(c: &AsyncCase) -> AsyncObs {
 pub fn strategy() -> impl Strategy<Value = AsyncCase> {
     let op = prop_oneof![
         3 => (0u8..N_FNS as u8, any::<u32>()).prop_map(|(i, v)| AOp::Fake { i, v: v % 900_000 }),
+        1 => (0u8..N_FNS as u8, any::<u32>()).prop_map(|(i, v)| AOp::FakeAwaitedDuringInstall { i, v: v % 900_000 }),
         5 => (0u8..N_FNS as u8, any::<u16>(), 0u8..4).prop_map(|(i, arg, thread)| AOp::Await { i, arg, thread }),
         1 => (0u8..N_FNS as u8, prop_oneof![2 => 2u16..40, 2 => 120u16..300, 1 => 300u16..600]).prop_map(|(i, n)| AOp::Burst { i, n }),
         1 => prop_oneof![2 => Just(AOp::EndLifetime), 1 => Just(AOp::EndLifetimeUnwind)],
@@ -427,6 +486,7 @@ pub fn strategy() -> impl Strategy<Value = AsyncCase> {
             .into_iter()
             .map(|o| match o {
                 AOp::Fake { i, v } => AOp::Fake { i: (focus + i % 4) % N_FNS as u8, v },
+                AOp::FakeAwaitedDuringInstall { i, v } => AOp::FakeAwaitedDuringInstall { i: (focus + i % 4) % N_FNS as u8, v },
                 AOp::Await { i, arg, thread } => AOp::Await { i: (focus + i % 4) % N_FNS as u8, arg, thread },
                 AOp::Burst { i, n } => AOp::Burst { i: (focus + i % 4) % N_FNS as u8, n },
                 x => x,
@@ -470,7 +530,14 @@ pub fn judge(rec: &mut Recorder, c: &AsyncCase, ex: Exec, _hello: &Value) -> Res
         return rec.fail(&sig("install-refused"), format!("{:?}; case {c:?}", o.install_panics));
     }
     // replay the model over the ops
-    let mut ops = c.ops.clone();
+    // (an installation awaited while it was being completed = the installation, then that await)
+    let mut ops: Vec<AOp> = c.ops.iter().flat_map(|op| match op {
+        AOp::FakeAwaitedDuringInstall { i, v } => vec![AOp::Fake { i: *i, v: *v }, AOp::Await { i: *i, arg: 5, thread: 0 }],
+        other => vec![other.clone()],
+    }).collect();
+    if c.ops.iter().any(|op| matches!(op, AOp::FakeAwaitedDuringInstall { .. })) {
+        rec.class("awaited-while-being-installed");
+    }
     ops.push(AOp::EndLifetime);
     for i in 0..N_FNS {
         ops.push(AOp::Await { i: i as u8, arg: 3, thread: 0 });
@@ -486,6 +553,7 @@ pub fn judge(rec: &mut Recorder, c: &AsyncCase, ex: Exec, _hello: &Value) -> Res
     const SAME_OUT: [&[usize]; 3] = [&[1, 2, 10], &[5, 6], &[]];
     for (k, op) in ops.iter().enumerate() {
         match op {
+            AOp::FakeAwaitedDuringInstall { .. } => unreachable!("expanded above"),
             AOp::Fake { i, v } => {
                 let i = *i as usize % N_FNS;
                 if current[i].is_some() {
